@@ -366,6 +366,43 @@ func ruleMaven(p *Prog, r *Report) {
 					}
 				}
 			}
+			// the other spelling: end := len(xs); for end > 0 && pred(xs[end-1]) { end-- }; return xs[:end]
+			if trimFn != fn {
+				for _, l := range findLoops(fn) {
+					for _, ins := range l.header.Instrs {
+						ph, ok := ins.(*ssa.Phi)
+						if !ok {
+							break
+						}
+						if !isIntType(ph.Type()) {
+							continue
+						}
+						startsAtLen, stepsDown := false, false
+						for i, ed := range ph.Edges {
+							if l.body[l.header.Preds[i]] {
+								if bo, ok := ed.(*ssa.BinOp); ok && bo.Op == token.SUB && bo.X == ssa.Value(ph) {
+									if n, ok := constInt(bo.Y); ok && n == 1 {
+										stepsDown = true
+									}
+								}
+							} else if lv, ok := lenArgAny(ed); ok && lv == ssa.Value(fn.Params[0]) {
+								startsAtLen = true
+							}
+						}
+						returned := false
+						for _, b := range fn.Blocks {
+							if ret, ok := b.Instrs[len(b.Instrs)-1].(*ssa.Return); ok {
+								if sl, ok := ret.Results[0].(*ssa.Slice); ok && sl.X == ssa.Value(fn.Params[0]) && sl.Low == nil && sl.High == ssa.Value(ph) {
+									returned = true
+								}
+							}
+						}
+						if startsAtLen && stepsDown && returned {
+							trimFn = fn
+						}
+					}
+				}
+			}
 			if trimFn == fn {
 				break
 			}
